@@ -17,11 +17,11 @@
      mt_psd             578-602   (fixed or adaptive weights, mtm_cross_spectrum, /= Fs)
      cmean, remove_bias utils.py 980-985
      tapered, mt_nfft, keep_idx          utils.py 738-758 (tapered_spectra up to the fft call)
-     kmax_of            525-536   (Kmax = int(2*NW))
+     nw_psd, qrne, kmax_of   525-536   (BW wins: NW = round(BW*N/Fs)/2; default NW = 4; Kmax = int(2*NW))
    Not modelled (taken as data): fft, sqrt, dpss_windows (property C07), adaptive_weights'
    iteration (its returned weights are data; C04's adaptive claim holds for any weights),
    the jackknife variance, the frequency grids (property C05). *)
-From Coq Require Import QArith List Arith Bool.
+From Coq Require Import QArith Qround List Arith Bool.
 From NT Require Import QC Sums.
 Import ListNotations.
 Open Scope Q_scope.
@@ -137,3 +137,16 @@ Definition keep_idx (low_bias : bool) (eig : list Q) : list nat :=
   if low_bias then keep_from eig 0 else seq 0 (length eig).
 (* `Kmax = int(2 * NW)` (truncation toward zero) *)
 Definition kmax_of (nw : Q) : Z := Z.quot (Qnum (2 * nw)) (Zpos (Qden (2 * nw))).
+(* np.round: round half to even *)
+Definition qrne (q : Q) : Z :=
+  let f := Qfloor q in
+  let r := q - inject_Z f in
+  match Qcompare r (1 # 2) with
+  | Lt => f | Gt => (f + 1)%Z | Eq => if Z.even f then f else (f + 1)%Z end.
+(* multi_taper_psd 528-535: `if BW is not None: norm_BW = np.round(BW * N / Fs); NW = norm_BW / 2.0`
+   `elif NW is None: NW = 4`   (N = s.shape[-1], the number of samples — not NFFT) *)
+Definition nw_psd (bw nw : option Q) (n : nat) (Fs : Q) : Q :=
+  match bw with
+  | Some b => inject_Z (qrne (b * inj n / Fs)) / 2
+  | None => match nw with Some v => v | None => 4 end
+  end.
